@@ -279,7 +279,8 @@ pub fn main(args: &Args) -> i32 {
             if long_every > 0 && ev["args"]["rows"][0][1]["s"].as_array().map(|a| a.len()).unwrap_or(0) > 60000 {
                 // drop the long string again soon so that it does not bloat every later event
                 let name = crate::j::from_cps(&ev["args"]["table"]);
-                for e2 in [json!({"op": "Flush", "args": {"x": 0}}), json!({"op": "DropTable", "args": {"table": cps(&name)}})] {
+                // (saved while the long string is live, released, saved again: the pool stream gets shorter)
+                for e2 in [json!({"op": "Flush", "args": {"x": 0}}), json!({"op": "DropTable", "args": {"table": cps(&name)}}), json!({"op": "Flush", "args": {"x": 0}})] {
                     let res = sess.exec(&e2);
                     let _ = writeln!(out, "{}", json!({"op": e2["op"], "args": e2["args"], "res": res, "st": log_state(&mut sess)}));
                     nev += 1;
